@@ -42,7 +42,18 @@ def strip_lean_comments(text):
     return re.sub(r'--[^\n]*', '', text)
 
 def lean_prepare(prop):
-    """regenerate facts, build model + theorems of `prop`, audit.  Returns (ok, info)"""
+    """regenerate facts, build model + theorems of `prop`, audit.  Returns (ok, info).
+    Checks of different properties may run at the same time: the part that writes into the
+    shared lake project is serialised by a file lock."""
+    import fcntl
+    with open(os.path.join(LEAN, '.prepare.lock'), 'w') as lk:
+        fcntl.flock(lk, fcntl.LOCK_EX)
+        try:
+            return lean_prepare_locked(prop)
+        finally:
+            fcntl.flock(lk, fcntl.LOCK_UN)
+
+def lean_prepare_locked(prop):
     info = {'theorems': [], 'axioms': {}, 'log': ''}
     r = sh([sys.executable, os.path.join(ROOT, 'gen', 'extract.py'), '--repo', REPO])
     info['log'] += r.stdout + r.stderr
